@@ -32,20 +32,22 @@ VARIABLES l,      \* next line
           fs,     \* frame stack for the step rules: Seq of [gas, pc, stk, msize, op, cost, enterGas, self, node]
           calls,  \* the call tree as the callbacks imply it (C07, C08): Seq of expected nodes, in order of entry
           open,   \* indices of the nodes whose CALL/CREATE frame is open, innermost last
+          balx,   \* C13 on recorded runs: [exp, got]: balance journal (account, call index) -> values, as the observed transfers imply it / as dumped
           jpx,    \* C05 on recorded runs: [on, pos (callbacks seen in this run), exp (Seq of expected firings), i (firings compared)]
           run,    \* name of the current run
           fork,   \* fork index of the current run
           cnt     \* rule counters
 
-vars == <<l, viol, nviol, fs, calls, open, jpx, run, fork, cnt>>
+vars == <<l, viol, nviol, fs, calls, open, jpx, balx, run, fork, cnt>>
 
-Comps == {"stream", "gas", "result", "tracerout", "rule", "treeshape", "treecontent", "jpseq"}
+Comps == {"stream", "gas", "result", "tracerout", "rule", "treeshape", "treecontent", "jpseq", "baljournal"}
 
 Init ==
   /\ l = 1 /\ viol = <<>> /\ nviol = [c \in Comps |-> 0] /\ fs = <<>> /\ calls = <<>> /\ open = <<>> /\ run = "" /\ fork = 0
   /\ jpx = [on |-> FALSE, pos |-> 0, exp |-> <<>>, i |-> 0]
+  /\ balx = [exp |-> <<>>, got |-> <<>>]
   /\ cnt = [lines |-> 0, runs |-> 0, steps |-> 0, gascont |-> 0, oog |-> 0, pcrule |-> 0, stackrule |-> 0, constgas |-> 0,
-            memgas |-> 0, callret |-> 0, enters |-> 0, results |-> 0, tracerouts |-> 0, nodes |-> 0, refused |-> 0, trees |-> 0, forkgas |-> 0, firings |-> 0, refunds |-> 0]
+            memgas |-> 0, callret |-> 0, enters |-> 0, results |-> 0, tracerouts |-> 0, nodes |-> 0, refused |-> 0, trees |-> 0, forkgas |-> 0, firings |-> 0, refunds |-> 0, xfers |-> 0, balvals |-> 0, baljournals |-> 0]
 
 ---------------------------------------------------------------------------
 (* refinement: which fields belong to which component *)
@@ -138,6 +140,9 @@ AfterStep(f, e) ==
                !.op = e.op, !.cost = e.cost, !.pend = IF callish /\ e.gas >= 0 /\ e.cost >= 0 THEN e.gas - e.cost ELSE -1]
 
 ---------------------------------------------------------------------------
+\* journal maps: (account, call index) -> list of values, an immediately repeated value recorded once
+JUpd(J, k, v) == IF k \in DOMAIN J THEN (IF J[k][Len(J[k])] = v THEN J ELSE [J EXCEPT ![k] = Append(@, v)]) ELSE J @@ (k :> <<v>>)
+
 AddViol(cs, a, r) ==
   /\ nviol' = [c \in Comps |-> nviol[c] + (IF c \in cs THEN 1 ELSE 0)]
   /\ viol' = IF cs # {} /\ Len(viol) < 40 THEN Append(viol, [c |-> cs, l |-> l, run |-> run, what |-> What(a, r)]) ELSE viol
@@ -149,6 +154,7 @@ Line ==
      IN CASE a.k = "reset" ->
                /\ run' = a.name /\ fork' = ForkIdx(a.kind) /\ fs' = <<>> /\ calls' = <<>> /\ open' = <<>>
                /\ jpx' = [on |-> a.top = 1, pos |-> 0, exp |-> <<>>, i |-> 0]
+               /\ balx' = [exp |-> <<>>, got |-> <<>>]
                /\ cnt' = [cnt EXCEPT !.lines = @ + 1, !.runs = @ + 1]
                /\ UNCHANGED <<viol, nviol>>
           [] a.k = "enter" ->
@@ -158,7 +164,7 @@ Line ==
                    hasNode == a.kind \in {"CALL", "CREATE", "CREATE2"}
                    self == IF a.kind \in {"CALLCODE", "DELEGATECALL"} THEN a.from ELSE a.to
                    nd == [from |-> a.from, to |-> (IF a.kind = "CALL" THEN a.to ELSE ""), inh |-> a.inh, inlen |-> a.inlen, val |-> a.val, gasx |-> a.gasx,
-                          parent |-> (IF open = <<>> THEN 0 ELSE open[Len(open)]), outh |-> "", outlen |-> 0, err |-> "", leftx |-> "?", refused |-> FALSE, closed |-> FALSE]
+                          parent |-> (IF open = <<>> THEN 0 ELSE open[Len(open)]), outh |-> "", outlen |-> 0, err |-> "", leftx |-> "?", refused |-> FALSE, closed |-> FALSE, pos |-> jpx.pos + 1]
                IN /\ fs' = Push(fs, [gas |-> a.gas, pc |-> 0, stk |-> 0, msize |-> 0, op |-> -1, cost |-> 0, pend |-> -1, enterGas |-> a.gas,
                                       self |-> self, node |-> (IF hasNode THEN Len(calls) + 1 ELSE 0),
                                       jp |-> (jpx.on /\ a.kind = "CALL" /\ a.code > 0), to |-> a.to])
@@ -169,7 +175,7 @@ Line ==
                                          !.exp = IF jpx.on /\ a.kind = "CALL" /\ a.code > 0 THEN Append(@, [pos |-> jpx.pos + 1, to |-> a.to, point |-> "pre"]) ELSE @]
                   /\ AddViol(LineDiffs(a, r) \cup bad, a, r)
                   /\ cnt' = [cnt EXCEPT !.lines = @ + 1, !.enters = @ + 1]
-                  /\ UNCHANGED <<run, fork>>
+                  /\ UNCHANGED <<run, fork, balx>>
           [] a.k = "exit" ->
                \* the parent gets back what the callee left: gas after the call step = gas - cost + (given - used)
                LET popped == IF fs = <<>> THEN fs ELSE Pop(fs)
@@ -194,7 +200,7 @@ Line ==
                                          !.exp = IF fs # <<>> /\ TopF.jp THEN Append(@, [pos |-> jpx.pos, to |-> TopF.to, point |-> "post"]) ELSE @]
                   /\ AddViol(LineDiffs(a, r) \cup bad, a, r)
                   /\ cnt' = [cnt EXCEPT !.lines = @ + 1, !.callret = @ + (IF left >= 0 THEN 1 ELSE 0)]
-                  /\ UNCHANGED <<run, fork>>
+                  /\ UNCHANGED <<run, fork, balx>>
           [] a.k \in {"step", "fault"} ->
                LET rules == IF a.k = "step" THEN StepRules(a) ELSE {}
                    f2 == IF fs = <<>> THEN fs
@@ -205,7 +211,7 @@ Line ==
                    refusedAttempt == /\ a.k = "step" /\ a.err = "" /\ a.op \in {240, 241, 245} /\ fs # <<>>
                                      /\ l < Len(Trace) /\ Trace[l + 1].a.k = "step" /\ Trace[l + 1].a.d = a.d
                    rn == [from |-> (IF fs = <<>> THEN "" ELSE TopF.self), to |-> "?", inh |-> "?", inlen |-> -1, val |-> "?", gasx |-> "?",
-                          parent |-> (IF open = <<>> THEN 0 ELSE open[Len(open)]), outh |-> "", outlen |-> 0, err |-> "refused", leftx |-> "?", refused |-> TRUE, closed |-> TRUE]
+                          parent |-> (IF open = <<>> THEN 0 ELSE open[Len(open)]), outh |-> "", outlen |-> 0, err |-> "refused", leftx |-> "?", refused |-> TRUE, closed |-> TRUE, pos |-> 0]
                IN /\ fs' = f2
                   /\ calls' = IF refusedAttempt THEN Append(calls, rn) ELSE calls
                   /\ jpx' = [jpx EXCEPT !.pos = @ + 1]
@@ -220,13 +226,13 @@ Line ==
                                         !.memgas = @ + (IF a.err = "" /\ DynCost(a) >= 0 THEN 1 ELSE 0),
                                         !.refused = @ + (IF refusedAttempt THEN 1 ELSE 0),
                                         !.forkgas = @ + (IF a.err = "" /\ ForkPrices(a.op) # {} THEN 1 ELSE 0)]
-                  /\ UNCHANGED <<run, fork>>
+                  /\ UNCHANGED <<run, fork, balx>>
           [] a.k = "result" \/ r.k = "result" ->
                /\ AddViol(LineDiffs(a, r), a, r)
                /\ fs' = <<>>
                /\ cnt' = [cnt EXCEPT !.lines = @ + 1, !.results = @ + 1,
                                      !.refunds = @ + (IF r.k = "result" /\ r.costx \notin {"", "0"} THEN 1 ELSE 0)]   \* runs that end with a non-zero refund counter
-               /\ UNCHANGED <<run, fork, calls, open, jpx>>
+               /\ UNCHANGED <<run, fork, calls, open, jpx, balx>>
           [] a.k = "jp" ->
                \* one firing seen by the Aspect provider: a.d = callbacks recorded before it, a.to = contract, a.name = pre/post
                LET i == jpx.i + 1
@@ -236,19 +242,19 @@ Line ==
                IN /\ AddViol(IF bad THEN {"jpseq"} ELSE {}, a, [r EXCEPT !.d = e.pos, !.to = e.to, !.name = e.point])
                   /\ jpx' = [jpx EXCEPT !.i = i]
                   /\ cnt' = [cnt EXCEPT !.lines = @ + 1, !.firings = @ + 1]
-                  /\ UNCHANGED <<fs, run, fork, calls, open>>
+                  /\ UNCHANGED <<fs, run, fork, calls, open, balx>>
           [] a.k = "jpend" ->
                \* no expected firing may be missing (a.top = 1: the stream was cut, no judgement)
                LET bad == a.top = 0 /\ (jpx.i # Len(jpx.exp) \/ a.d # Len(jpx.exp))
                IN /\ AddViol(IF bad THEN {"jpseq"} ELSE {}, a, [r EXCEPT !.d = Len(jpx.exp), !.name = "expected number of firings"])
                   /\ cnt' = [cnt EXCEPT !.lines = @ + 1]
-                  /\ UNCHANGED <<fs, run, fork, calls, open, jpx>>
+                  /\ UNCHANGED <<fs, run, fork, calls, open, jpx, balx>>
           [] a.k = "node" ->
                \* one node of the recorded call tree (index a.d, 1-based; parent a.pc; children a.kids) against the tree the callbacks imply
                LET i == a.d
                    known == i >= 1 /\ i <= Len(calls)
                    e == IF known THEN calls[i] ELSE [from |-> "", to |-> "", inh |-> "", inlen |-> 0, val |-> "", gasx |-> "", parent |-> -1,
-                                                     outh |-> "", outlen |-> 0, err |-> "", leftx |-> "", refused |-> FALSE, closed |-> FALSE]
+                                                     outh |-> "", outlen |-> 0, err |-> "", leftx |-> "", refused |-> FALSE, closed |-> FALSE, pos |-> 0]
                    kidsExp == LET S == {j \in 1..Len(calls) : calls[j].parent = i} IN SortedSeq(S)
                    shapeBad == ~known \/ a.pc # e.parent \/ a.kids # kidsExp \/ (a.pc >= i)
                    contentBad == known /\ (IF e.refused
@@ -258,17 +264,51 @@ Line ==
                IN /\ AddViol(IF a.top = 1 THEN {} ELSE (IF shapeBad THEN {"treeshape"} ELSE {}) \cup (IF contentBad THEN {"treecontent"} ELSE {}), a,
                              [r EXCEPT !.from = e.from, !.to = e.to, !.inh = e.inh, !.outh = e.outh, !.err = e.err, !.usedx = e.leftx, !.gasx = e.gasx, !.pc = e.parent, !.name = "expected from the callbacks"])
                   /\ cnt' = [cnt EXCEPT !.lines = @ + 1, !.nodes = @ + 1]
-                  /\ UNCHANGED <<fs, run, fork, calls, open, jpx>>
+                  /\ UNCHANGED <<fs, run, fork, calls, open, jpx, balx>>
           [] a.k = "tree" ->
                \* the whole tree: as many nodes as call attempts, cursor at rest, nothing beyond the last index (a.top = 1: the stream was cut, no judgement)
                LET bad == a.top = 0 /\ (a.d # Len(calls) \/ a.pc # 0 \/ a.stk # 0)
                IN /\ AddViol(IF bad THEN {"treeshape"} ELSE {}, a, [r EXCEPT !.d = Len(calls), !.name = "expected node count, cursor nil, nothing beyond"])
                   /\ cnt' = [cnt EXCEPT !.lines = @ + 1, !.trees = @ + 1]
+                  /\ UNCHANGED <<fs, run, fork, calls, open, jpx, balx>>
+          [] a.k = "xfer" ->
+               \* one observed value transfer (a.d = callbacks recorded before it; real balances of sender / recipient before: t0 t1, after: t2 gasx).
+               \* The transfer is the last thing before the frame is announced, so it belongs to the node whose enter callback is number a.d + 1;
+               \* the journal of that call gets sender-before, recipient-before, sender-after, recipient-after, immediate repeats collapsed.
+               LET S == {i \in 1..Len(calls) : calls[i].pos = a.d + 1}
+                   i == IF S = {} THEN 0 ELSE CHOOSE x \in S : TRUE
+                   e1 == JUpd(balx.exp, <<a.from, i>>, a.t0)
+                   e2 == JUpd(e1, <<a.to, i>>, a.t1)
+                   e3 == JUpd(e2, <<a.from, i>>, a.t2)
+                   e4 == JUpd(e3, <<a.to, i>>, a.gasx)
+               IN /\ balx' = [balx EXCEPT !.exp = e4]
+                  /\ AddViol(IF a.top = 0 /\ i = 0 THEN {"baljournal"} ELSE {}, a, [r EXCEPT !.name = "a transfer that no CALL/CREATE frame entry follows"])
+                  /\ cnt' = [cnt EXCEPT !.lines = @ + 1, !.xfers = @ + 1]
                   /\ UNCHANGED <<fs, run, fork, calls, open, jpx>>
+          [] a.k = "balv" ->
+               \* one value of the dumped balance journal: account a.to, call index a.d (1-based), position a.pc in its list
+               LET k == <<a.to, a.d>>
+                   have == IF k \in DOMAIN balx.got THEN balx.got[k] ELSE <<>>
+               IN /\ balx' = [balx EXCEPT !.got = IF k \in DOMAIN @ THEN [@ EXCEPT ![k] = Append(@, a.val)] ELSE @ @@ (k :> <<a.val>>)]
+                  /\ AddViol(IF a.top = 0 /\ a.pc # Len(have) + 1 THEN {"baljournal"} ELSE {}, a, [r EXCEPT !.name = "dump out of order"])
+                  /\ cnt' = [cnt EXCEPT !.lines = @ + 1, !.balvals = @ + 1]
+                  /\ UNCHANGED <<fs, run, fork, calls, open, jpx>>
+          [] a.k = "balend" ->
+               \* C13: the journal is exactly what the observed transfers imply - nothing missing, nothing more, every list in order
+               LET bad == a.top = 0 /\ balx.got # balx.exp
+                   K == (DOMAIN balx.got) \cup (DOMAIN balx.exp)
+                   D == {k \in K : k \notin DOMAIN balx.got \/ k \notin DOMAIN balx.exp \/ balx.got[k] # balx.exp[k]}
+                   k1 == IF D = {} THEN <<"", 0>> ELSE CHOOSE k \in D : TRUE
+               IN /\ AddViol(IF bad THEN {"baljournal"} ELSE {}, a,
+                             [r EXCEPT !.to = k1[1], !.d = k1[2],
+                                       !.name = "expected journal of this account and call: " \o (IF k1 \in DOMAIN balx.exp THEN ToString(balx.exp[k1]) ELSE "none")
+                                                \o ", recorded: " \o (IF k1 \in DOMAIN balx.got THEN ToString(balx.got[k1]) ELSE "none")])
+                  /\ cnt' = [cnt EXCEPT !.lines = @ + 1, !.baljournals = @ + (IF a.top = 0 /\ DOMAIN balx.exp # {} THEN 1 ELSE 0)]
+                  /\ UNCHANGED <<fs, run, fork, calls, open, jpx, balx>>
           [] OTHER ->     \* tracer outputs, or "none" on the Artela side (the reference stream is longer)
                /\ AddViol(LineDiffs(a, r), a, r)
                /\ cnt' = [cnt EXCEPT !.lines = @ + 1, !.tracerouts = @ + (IF a.k = "tracer" THEN 1 ELSE 0)]
-               /\ UNCHANGED <<fs, run, fork, calls, open, jpx>>
+               /\ UNCHANGED <<fs, run, fork, calls, open, jpx, balx>>
   /\ l' = l + 1
 
 Next == Line
